@@ -161,13 +161,14 @@ pub proof fn lemma_table_next_block(m: Map<il::Scalar, HashSet<usize>>, bs: Seq<
     invariant
         cfg.graph.graph_wf(),
         cfg.graph.lists_vertices(vf_it.seq(), |k: usize| true),
+        vf_it.seq().len() == cfg.graph.vertices@.dom().len(),
         table_is(mutated_in@, vf_it.seq(), vf_it.index@ as int, 0, Seq::<&&il::Scalar>::empty(), 0),
         vf_it.index@ == vf_it.seq().len() ==> (forall|s: il::Scalar, k: usize| #![trigger mutated_in@[s]@.contains(k)] (mutated_in@.contains_key(s) && mutated_in@[s]@.contains(k)) <==> mutated_at(*cfg, s, k)),
 //@ before 0 `for block in vf_it`
     proof {
-        assert forall|bs: Seq<&il::Block>| #![trigger cfg.graph.lists_vertices(bs, |k: usize| true)] cfg.graph.lists_vertices(bs, |k: usize| true) implies
-            (forall|s: il::Scalar, k: usize| #![trigger mutated_at(*cfg, s, k)] mutated_in_prefix(bs, bs.len() as int, s, k) <==> mutated_at(*cfg, s, k)) by {
-            lemma_prefix_full(*cfg, bs);
+        if cfg.graph.vertices@.dom().len() == 0 {
+            assert(cfg.graph.vertices@.dom().finite());
+            assert forall|k: usize| !cfg.graph.vertices@.contains_key(k) by { if cfg.graph.vertices@.dom().contains(k) { vstd::set_lib::lemma_set_empty_equivalency_len(cfg.graph.vertices@.dom()); } }
         }
     }
 //@ before 0 `for vf_r in`
@@ -175,9 +176,9 @@ pub proof fn lemma_table_next_block(m: Map<il::Scalar, HashSet<usize>>, bs: Seq<
     let ghost vf_bs = vf_it.seq();
     proof {
         assert(*block == *vf_bs[vf_k]);
-        assert forall|refs: Seq<&&il::Scalar>| #![trigger graph::seq_lists_set_ref(refs, vf_set@)] graph::seq_lists_set_ref(refs, vf_set@) && table_is(mutated_in@, vf_bs, vf_k, block.index, refs, refs.len() as int)
-            implies table_is(mutated_in@, vf_bs, vf_k + 1, 0, Seq::<&&il::Scalar>::empty(), 0) by {
-            lemma_table_next_block(mutated_in@, vf_bs, vf_k, refs, vf_set@);
+        if vf_set@.len() == 0 {
+            assert forall|s: &il::Scalar| !vf_set@.contains(s) by { if vf_set@.contains(s) { vstd::set_lib::lemma_set_empty_equivalency_len(vf_set@); } }
+            lemma_table_next_block(mutated_in@, vf_bs, vf_k, Seq::<&&il::Scalar>::empty(), vf_set@);
         }
     }
 //@ loop 1
@@ -218,5 +219,10 @@ pub proof fn lemma_table_next_block(m: Map<il::Scalar, HashSet<usize>>, bs: Seq<
                 }
             }
         }
+        if vf_j + 1 == refs.len() { lemma_table_next_block(mutated_in@, vf_bs, vf_k, refs, vf_set@); }
+    }
+//@ after 0 `mutated_in.get_mut(scalar).unwrap().insert(block.index()); }`
+    proof {
+        if vf_k + 1 == vf_bs.len() { lemma_prefix_full(*cfg, vf_bs); }
     }
 //@ end
